@@ -206,6 +206,23 @@ theorem send_holding_the_mutex_returns (a : Nat) (r : Run sys) (hfair : WeakFair
     obtain ⟨hd, hact⟩ := holder_exit_is_return a (cinv_reach _ (run_reach _ r k)) (cinv_reach _ (run_reach _ r (k + 1))) h3 hn hout
     exact ⟨k, h1, by rw [ha, hact], hd⟩
 
+/-- A NEGATIVE ADD THAT ABSORBS RETURNS.  If receiver `r0` is absorbing (its Add(-d) landed while Send `a` was armed) then, along
+    every run weakly fair for that Send's class, `r0` stops absorbing: it has received the values it removed itself from and its
+    Add returns — before the Send leaves its send phase. -/
+theorem absorbing_add_returns (a r0 : Nat) (r : Run sys) (hfair : WeakFair sys (fun _ act => holderStep a act) r)
+    (i : Nat) (hs : ((r.st i).senders a).pc = .sending) : ∃ j, i ≤ j ∧ ((r.st j).recvs r0).pc ≠ .absorbing := by
+  obtain ⟨j, hij, hj⟩ := absorbing_leadsTo a r0 r hfair i
+  rcases hj with hj | hj
+  · exact ⟨j, hij, hj⟩
+  · -- the Send left its send phase somewhere in [i, j): at that step nobody is absorbing any more
+    obtain ⟨k, h1, _, h3, h4⟩ := last_before_change (fun n => ((r.st n).senders a).pc = .sending) i j hij hs hj
+    have hn := r.next k
+    cases hact : r.act k with
+    | none => simp only [hact] at hn; rw [hn] at h4; exact absurd h3 h4
+    | some act =>
+      simp only [hact] at hn
+      exact ⟨k + 1, by omega, no_absorber_after_send_phase a (cinv_reach _ (run_reach _ r k)) (cinv_reach _ (run_reach _ r (k + 1))) hn h3 h4 r0⟩
+
 /-! a weakly fair run to which the theorem applies: the run of the non-vacuity example below, then stuttering -/
 def demoActs : Nat → Option Act
   | 0 => some (.rlock 0 1) | 1 => some (.radd 0) | 2 => some (.runlock 0) | 3 => some (.rlock 1 1) | 4 => some (.radd 1)
@@ -249,6 +266,10 @@ theorem demoRun_fair : WeakFair sys (fun _ act => holderStep 0 act) demoRun := b
 
 example : ∃ k, 9 ≤ k ∧ demoRun.act k = some (.sunlock 0) ∧ ((demoRun.st (k + 1)).senders 0).pc = .done :=
   send_holding_the_mutex_returns 0 demoRun demoRun_fair 9 (by rfl)
+
+/-- … and receiver 1, absorbing at step 11 (its Add(-1) landed while Send 0 was armed), gets out -/
+example : ((demoRun.st 11).recvs 1).pc = .absorbing ∧ ∃ j, 11 ≤ j ∧ ((demoRun.st j).recvs 1).pc ≠ .absorbing :=
+  ⟨by rfl, absorbing_add_returns 0 1 demoRun demoRun_fair 11 (by rfl)⟩
 
 /-- non-vacuity: two receivers register; a Send arms with 2; one deregisters during the Send and absorbs one
     value, the other receives; Send returns 1 = deliveries, 1 + 1 absorbed = 2 registered, word back to 0 -/
